@@ -49,6 +49,11 @@ LEVEL_TEXT += (
     "and periodic classes; orientation flags of carried-over boundaries "
     "and the diagonal lengths of the tetrahedral refinement (open "
     "findings).")
+LEVEL_TEXT += (
+    " Added in the second hunting round (DESIGN.md 9.6): "
+    "a class refusing _uniform by override hands out a refinable "
+    "reference mesh, and the auxiliary split mesh of refinterp / "
+    "_splitref is not of the refusing class.")
 LEVEL_NOTE = ("Trusted: numpy hstack/vstack/mean semantics. For sorted "
               "triangles the children's local order is modelled by the "
               "invariant that a sorted parent (v0<v1<v2) numbers its new "
